@@ -15,29 +15,29 @@ theorem run_ret_val {α} {a v : α} {as : List SysAns} {rq : List Req} (h : (Ask
   simp only [Ask.run_ret, Prod.mk.injEq] at h; exact h.1.symm
 
 /-- What the induction needs of a sub-evaluation. -/
-def EvOK (env : Env) (tf : Int → Option Bytes) (root : Msg) (e : Expr) : Prop :=
+def EvOK (env : Env) (root : Msg) (e : Expr) : Prop :=
   ∀ (part : Nat) (m : Msg) (st : St) (as : List SysAns),
-    Answered env tf ((evalT (noSys env) tf root e part m st).run as).2 as →
-      ((evalT (noSys env) tf root e part m st).run as).1 = eval env root e part m st
+    Answered env ((evalT (noSys env) root e part m st).run as).2 as →
+      ((evalT (noSys env) root e part m st).run as).1 = eval env root e part m st
 
-theorem evOK_apply {env : Env} {tf : Int → Option Bytes} {root : Msg} {e : Expr} (h : EvOK env tf root e)
+theorem evOK_apply {env : Env} {root : Msg} {e : Expr} (h : EvOK env root e)
     {part : Nat} {m : Msg} {st : St} {as : List SysAns} {v : Tri × St} {rq : List Req}
-    (hr : (evalT (noSys env) tf root e part m st).run as = (v, rq)) (ha : Answered env tf rq as) :
+    (hr : (evalT (noSys env) root e part m st).run as = (v, rq)) (ha : Answered env rq as) :
     v = eval env root e part m st := by
   have := h part m st as (by rw [hr]; exact ha)
   rw [hr] at this
   exact this
 
-theorem loop_ok {env : Env} {tf : Int → Option Bytes} {root : Msg} {e : Expr} (ih : EvOK env tf root e) (part : Nat)
+theorem loop_ok {env : Env} {root : Msg} {e : Expr} (ih : EvOK env root e) (part : Nat)
     (ps : List Msg) : ∀ (i : Nat) (st : St) (as : List SysAns),
-      Answered env tf ((evalT.loop (noSys env) tf root e part ps i st).run as).2 as →
-        ((evalT.loop (noSys env) tf root e part ps i st).run as).1 = eval.loop env root e part ps i st := by
+      Answered env ((evalT.loop (noSys env) root e part ps i st).run as).2 as →
+        ((evalT.loop (noSys env) root e part ps i st).run as).1 = eval.loop env root e part ps i st := by
   induction ps with
   | nil => intro i st as _; simp only [evalT.loop, eval.loop, Ask.run_ret]
   | cons p rest ihp =>
     intro i st as ha
     simp only [evalT.loop, eval.loop] at ha ⊢
-    obtain ⟨v1, rq1, v2, rq2, h1, h2, h3⟩ := Ask.run_bind (evalT (noSys env) tf root e (if part == 0 then i + 1 else part) p st) _ as
+    obtain ⟨v1, rq1, v2, rq2, h1, h2, h3⟩ := Ask.run_bind (evalT (noSys env) root e (if part == 0 then i + 1 else part) p st) _ as
     rw [h3] at ha ⊢
     have hv := evOK_apply ih h1 ha.left
     subst hv
@@ -50,16 +50,16 @@ theorem loop_ok {env : Env} {tf : Int → Option Bytes} {root : Msg} {e : Expr} 
       exact this
     · exact run_ret_val h2
 
-theorem loopB_ok {env : Env} {tf : Int → Option Bytes} {root : Msg} {e : Expr} (ih : EvOK env tf root e) (part : Nat)
+theorem loopB_ok {env : Env} {root : Msg} {e : Expr} (ih : EvOK env root e) (part : Nat)
     (ps : List Msg) : ∀ (i : Nat) (ev0 : Tri) (st : St) (as : List SysAns),
-      Answered env tf ((evalT.loopB (noSys env) tf root e part ps i ev0 st).run as).2 as →
-        ((evalT.loopB (noSys env) tf root e part ps i ev0 st).run as).1 = eval.loopB env root e part ps i ev0 st := by
+      Answered env ((evalT.loopB (noSys env) root e part ps i ev0 st).run as).2 as →
+        ((evalT.loopB (noSys env) root e part ps i ev0 st).run as).1 = eval.loopB env root e part ps i ev0 st := by
   induction ps with
   | nil => intro i ev0 st as _; simp only [evalT.loopB, eval.loopB, Ask.run_ret]
   | cons p rest ihp =>
     intro i ev0 st as ha
     simp only [evalT.loopB, eval.loopB] at ha ⊢
-    obtain ⟨v1, rq1, v2, rq2, h1, h2, h3⟩ := Ask.run_bind (evalT (noSys env) tf root e (if part == 0 then i + 1 else part) p st) _ as
+    obtain ⟨v1, rq1, v2, rq2, h1, h2, h3⟩ := Ask.run_bind (evalT (noSys env) root e (if part == 0 then i + 1 else part) p st) _ as
     rw [h3] at ha ⊢
     have hv := evOK_apply ih h1 ha.left
     subst hv
@@ -76,13 +76,13 @@ theorem loopB_ok {env : Env} {tf : Int → Option Bytes} {root : Msg} {e : Expr}
 
 /-- **The pure evaluation is `Model.eval`.**  `evalT` is handed the environment without its oracles; if every question
 it asks (running on the answers `as`) is answered as the oracles of `env` say, its value is `eval env`. -/
-theorem evalT_eq_eval (env : Env) (tf : Int → Option Bytes) (root : Msg) (e : Expr) : EvOK env tf root e := by
+theorem evalT_eq_eval (env : Env) (root : Msg) (e : Expr) : EvOK env root e := by
   have hs := envSame_noSys env
   induction e with
   | block lno e ih =>
     intro part m st as ha
     simp only [evalT, eval] at ha ⊢
-    obtain ⟨v1, rq1, v2, rq2, h1, h2, h3⟩ := Ask.run_bind (evalT (noSys env) tf root e part m st) _ as
+    obtain ⟨v1, rq1, v2, rq2, h1, h2, h3⟩ := Ask.run_bind (evalT (noSys env) root e part m st) _ as
     rw [h3] at ha ⊢
     have hv := evOK_apply ih h1 ha.left
     subst hv
@@ -105,7 +105,7 @@ theorem evalT_eq_eval (env : Env) (tf : Int → Option Bytes) (root : Msg) (e : 
   | and lno l r ihl ihr =>
     intro part m st as ha
     simp only [evalT, eval] at ha ⊢
-    obtain ⟨v1, rq1, v2, rq2, h1, h2, h3⟩ := Ask.run_bind (evalT (noSys env) tf root l part m st) _ as
+    obtain ⟨v1, rq1, v2, rq2, h1, h2, h3⟩ := Ask.run_bind (evalT (noSys env) root l part m st) _ as
     rw [h3] at ha ⊢
     have hv := evOK_apply ihl h1 ha.left
     subst hv
@@ -118,7 +118,7 @@ theorem evalT_eq_eval (env : Env) (tf : Int → Option Bytes) (root : Msg) (e : 
   | or lno l r ihl ihr =>
     intro part m st as ha
     simp only [evalT, eval] at ha ⊢
-    obtain ⟨v1, rq1, v2, rq2, h1, h2, h3⟩ := Ask.run_bind (evalT (noSys env) tf root l part m st) _ as
+    obtain ⟨v1, rq1, v2, rq2, h1, h2, h3⟩ := Ask.run_bind (evalT (noSys env) root l part m st) _ as
     rw [h3] at ha ⊢
     have hv := evOK_apply ihl h1 ha.left
     subst hv
@@ -131,7 +131,7 @@ theorem evalT_eq_eval (env : Env) (tf : Int → Option Bytes) (root : Msg) (e : 
   | neg lno e ih =>
     intro part m st as ha
     simp only [evalT, eval] at ha ⊢
-    obtain ⟨v1, rq1, v2, rq2, h1, h2, h3⟩ := Ask.run_bind (evalT (noSys env) tf root e part m st) _ as
+    obtain ⟨v1, rq1, v2, rq2, h1, h2, h3⟩ := Ask.run_bind (evalT (noSys env) root e part m st) _ as
     rw [h3] at ha ⊢
     have hv := evOK_apply ih h1 ha.left
     subst hv
@@ -146,7 +146,7 @@ theorem evalT_eq_eval (env : Env) (tf : Int → Option Bytes) (root : Msg) (e : 
     dsimp only at ha ⊢
     cases f1
     · simp only [Bool.false_eq_true, ↓reduceIte] at ha ⊢
-      obtain ⟨v1, rq1, v2, rq2, h1, h2, h3⟩ := Ask.run_bind (evalT (noSys env) tf root c part m { st with ml := ml1 }) _ as
+      obtain ⟨v1, rq1, v2, rq2, h1, h2, h3⟩ := Ask.run_bind (evalT (noSys env) root c part m { st with ml := ml1 }) _ as
       rw [h3] at ha ⊢
       have hv := evOK_apply ihc h1 ha.left
       subst hv
@@ -179,18 +179,24 @@ theorem evalT_eq_eval (env : Env) (tf : Int → Option Bytes) (root : Msg) (e : 
     all_goals
       simp only [evalT, eval, ask, Ask.ask_bind, Ask.ret_bind, Ask.run] at ha ⊢
       have hok := (Answered.left (r1 := [_]) ha).head
-      simp only [AnsOK] at hok
+      simp only [AnsOK, show (noSys env).path = env.path from rfl] at hok
       rw [← hok]
-      generalize ansFileTime tf _ (as.headD _) = ft
-      cases ft with
+      simp only [ansFileTime, show (noSys env).timeFormat = env.timeFormat from rfl, show (noSys env).now = env.now from rfl]
+      generalize ansTimes (as.headD _) = ot
+      cases ot with
       | none => rfl
-      | some x =>
-        obtain ⟨t, s⟩ := x
-        dsimp only
-        simp only [show (noSys env).now = env.now from rfl]
-        by_cases hd : (!dateMatches cmp age env.now t) = true
-        · simp only [hd, ↓reduceIte, Ask.run_ret]
-        · simp only [hd, Bool.false_eq_true, ↓reduceIte, Ask.run_ret, exprRegexec_same hs]
+      | some sb =>
+        dsimp only [FileTimes.time]
+        generalize env.timeFormat _ = os
+        cases os with
+        | none => rfl
+        | some s =>
+          dsimp only [Option.map]
+          split
+          · rename_i hd
+            simp only [hd, ↓reduceIte, Ask.run_ret]
+          · rename_i hd
+            simp only [hd, Bool.false_eq_true, ↓reduceIte, Ask.run_ret, exprRegexec_same hs]
   | stat lno path =>
     intro part m st as ha
     simp only [evalT, eval, ask, Ask.ask_bind, Ask.ret_bind, matchesAppend_same hs] at ha ⊢
@@ -253,32 +259,33 @@ theorem evalT_eq_eval (env : Env) (tf : Int → Option Bytes) (root : Msg) (e : 
 inductive Reading where
   | rc (v : Int)
   | dir (b : Bool)
-  | ft (o : Option (Int × Bytes))
+  | ft (o : Option FileTimes)
 deriving DecidableEq
 
-def reading (tf : Int → Option Bytes) : Req → SysAns → Reading
+def reading : Req → SysAns → Reading
   | .command _, a => .rc (ansStatus a)
   | .isDir _, a => .dir (ansIsDir a)
-  | .fileTime _ f, a => .ft (ansFileTime tf f a)
+  | .fileTime _ _, a => .ft (ansTimes a)
 
-/-- The same question to a pure oracle (the path of a file-time question is always the message's own). -/
+/-- The same question to a pure oracle (`Env.fileTime` is keyed by the path: `stat` of the same path for two different
+time fields is the same question). -/
 def sameKey : Req → Req → Bool
   | .command a, .command b => a == b
   | .isDir p, .isDir q => p == q
-  | .fileTime _ f, .fileTime _ g => f == g
+  | .fileTime p _, .fileTime q _ => p == q
   | _, _ => false
 
 /-- Equal questions were given answers that read the same. -/
-def Consistent (tf : Int → Option Bytes) (rq : List Req) (as : List SysAns) : Prop :=
+def Consistent (rq : List Req) (as : List SysAns) : Prop :=
   ∀ (j k : Nat) (q q' : Req) (a a' : SysAns), rq[j]? = some q → rq[k]? = some q' → as[j]? = some a → as[k]? = some a' →
-    sameKey q q' = true → reading tf q a = reading tf q' a'
+    sameKey q q' = true → reading q a = reading q' a'
 
 /-- The first answer to a question with the key of `q`. -/
 def firstAnswer (rq : List Req) (as : List SysAns) (q : Req) : Option (Req × SysAns) :=
   (rq.zip as).find? fun x => sameKey x.1 q
 
 /-- The pure oracles a list of questions and answers defines (first answer wins). -/
-def envOf (env : Env) (tf : Int → Option Bytes) (rq : List Req) (as : List SysAns) : Env :=
+def envOf (env : Env) (rq : List Req) (as : List SysAns) : Env :=
   { env with
     command := fun av => match firstAnswer rq as (.command av) with
       | some x => ansStatus x.2
@@ -286,12 +293,12 @@ def envOf (env : Env) (tf : Int → Option Bytes) (rq : List Req) (as : List Sys
     isDir := fun p => match firstAnswer rq as (.isDir p) with
       | some x => ansIsDir x.2
       | none => false
-    fileTime := fun f => match firstAnswer rq as (.fileTime [] f) with
-      | some x => (match x.1 with | .fileTime _ g => ansFileTime tf g x.2 | _ => none)
+    fileTime := fun p => match firstAnswer rq as (.fileTime p .modified) with
+      | some x => ansTimes x.2
       | none => none }
 
-theorem noSys_envOf (env : Env) (tf : Int → Option Bytes) (rq : List Req) (as : List SysAns) :
-    noSys (envOf env tf rq as) = noSys env := rfl
+theorem noSys_envOf (env : Env) (rq : List Req) (as : List SysAns) :
+    noSys (envOf env rq as) = noSys env := rfl
 
 theorem sameKey_refl (q : Req) : sameKey q q = true := by
   cases q <;> simp [sameKey]
@@ -316,8 +323,8 @@ theorem firstAnswer_spec {rq : List Req} {as : List SysAns} {q : Req} {k : Nat} 
     exact ⟨j, q1, a1, rfl, hj.1, hj.2, hp⟩
 
 /-- Consistent answers, one per question, are answers of the pure oracles `envOf`. -/
-theorem answered_of_consistent (env : Env) (tf : Int → Option Bytes) (rq : List Req) (as : List SysAns)
-    (hlen : rq.length = as.length) (hc : Consistent tf rq as) : Answered (envOf env tf rq as) tf rq as := by
+theorem answered_of_consistent (env : Env) (rq : List Req) (as : List SysAns)
+    (hlen : rq.length = as.length) (hc : Consistent rq as) : Answered (envOf env rq as) rq as := by
   intro k q hq
   have hk : k < as.length := by
     rcases Nat.lt_or_ge k rq.length with h | h
@@ -343,34 +350,34 @@ theorem answered_of_consistent (env : Env) (tf : Int → Option Bytes) (rq : Lis
     have := hc j k q1 _ a1 _ hj1 hq hj2 ha hs
     cases q1 <;> simp only [sameKey, Bool.false_eq_true] at hs
     rename_i p1 f1
-    have hkey : (fun x : Req × SysAns => sameKey x.1 (.fileTime p f)) = (fun x => sameKey x.1 (.fileTime [] f)) := by
+    have hkey : (fun x : Req × SysAns => sameKey x.1 (.fileTime p f)) = (fun x => sameKey x.1 (.fileTime p .modified)) := by
       funext x; cases x.1 <;> rfl
-    have hf' : firstAnswer rq as (.fileTime [] f) = some (.fileTime p1 f1, a1) := by
+    have hf' : firstAnswer rq as (.fileTime p .modified) = some (.fileTime p1 f1, a1) := by
       rw [← hf]; unfold firstAnswer; rw [hkey]
     simp only [reading, Reading.ft.injEq] at this
     simp only [AnsOK, envOf, hf', this]
 
 /-- **`evalR` is `Model.eval`** with the pure oracles `envOf` whenever every question was answered and equal questions
 were given answers that read the same - in particular when no question was asked twice. -/
-theorem evalR_eq_eval_of_consistent (env : Env) (tf : Int → Option Bytes) (e : Expr) (m : Msg) (fl : MFlags) (as : List SysAns)
-    (hlen : (evalR (noSys env) tf e m fl as).2.length = as.length)
-    (hc : Consistent tf (evalR (noSys env) tf e m fl as).2 as) :
-    (evalR (noSys env) tf e m fl as).1 =
-      eval (envOf env tf (evalR (noSys env) tf e m fl as).2 as) m e 0 m { ml := [], flags := fl } :=
-  evalT_eq_eval (envOf env tf (evalR (noSys env) tf e m fl as).2 as) tf m e 0 m { ml := [], flags := fl } as
-    (answered_of_consistent env tf _ as hlen hc)
+theorem evalR_eq_eval_of_consistent (env : Env) (e : Expr) (m : Msg) (fl : MFlags) (as : List SysAns)
+    (hlen : (evalR (noSys env) e m fl as).2.length = as.length)
+    (hc : Consistent (evalR (noSys env) e m fl as).2 as) :
+    (evalR (noSys env) e m fl as).1 =
+      eval (envOf env (evalR (noSys env) e m fl as).2 as) m e 0 m { ml := [], flags := fl } :=
+  evalT_eq_eval (envOf env (evalR (noSys env) e m fl as).2 as) m e 0 m { ml := [], flags := fl } as
+    (answered_of_consistent env _ as hlen hc)
 
 /-- **Evaluation inside the world model is `Model.eval`**: against arbitrary call results, when the answers the world
 gave to equal questions read the same, the value of `evalP` is `eval` with the pure oracles these answers define. -/
-theorem evalP_eq_eval (env : Env) (tf : Int → Option Bytes) (e : Expr) (m : Msg) (fl : MFlags)
+theorem evalP_eq_eval (env : Env) (e : Expr) (m : Msg) (fl : MFlags)
     (orcl : Nat → Call → Res) (i : Nat)
-    (hc : Consistent tf (evalR (noSys env) tf e m fl ((evalTop (noSys env) tf e m fl).answers orcl i)).2
-      ((evalTop (noSys env) tf e m fl).answers orcl i)) :
-    (Own.runO orcl (evalP (noSys env) tf e m fl) i).1 =
-      eval (envOf env tf (evalR (noSys env) tf e m fl ((evalTop (noSys env) tf e m fl).answers orcl i)).2
-        ((evalTop (noSys env) tf e m fl).answers orcl i)) m e 0 m { ml := [], flags := fl } := by
-  obtain ⟨h1, h2, _⟩ := evalP_replay (noSys env) tf e m fl orcl i
+    (hc : Consistent (evalR (noSys env) e m fl ((evalTop (noSys env) e m fl).answers orcl i)).2
+      ((evalTop (noSys env) e m fl).answers orcl i)) :
+    (Own.runO orcl (evalP (noSys env) e m fl) i).1 =
+      eval (envOf env (evalR (noSys env) e m fl ((evalTop (noSys env) e m fl).answers orcl i)).2
+        ((evalTop (noSys env) e m fl).answers orcl i)) m e 0 m { ml := [], flags := fl } := by
+  obtain ⟨h1, h2, _⟩ := evalP_replay (noSys env) e m fl orcl i
   rw [h1]
-  exact evalR_eq_eval_of_consistent env tf e m fl _ h2 hc
+  exact evalR_eq_eval_of_consistent env e m fl _ h2 hc
 
 end Mdsort.Proofs
